@@ -95,6 +95,25 @@ def same_results(a, b):
     return None
 
 
+def order_problem(impl):
+    """last sentence of the property, read off the implementation's own rows: per security the rows are in
+    settlement-date order, ties broken by position in the concatenated input (generated adjustment rows and the
+    per-affiliate copies of a split carry the position of the row they come from)"""
+    if impl.get("status") != "ok":
+        return None
+    for s, so in impl["secs"].items():
+        prev = None
+        for j, d in enumerate(so["deltas"]):
+            if d.get("ri") is None or d.get("sd") is None:
+                continue
+            key = (d["sd"], d["ri"])
+            if prev is not None and key < prev:
+                return "sec %s row %d (settles %s, input position %d) is processed after a row settling %s at input position %d" % (
+                    s, j, d["sd"], d["ri"], prev[0], prev[1])
+            prev = key
+    return None
+
+
 def run(res, ctx):
     tier, seed = ctx["tier"], ctx["seed"]
     rng = random.Random(seed * 86028121 + 7)
@@ -146,6 +165,13 @@ def run(res, ctx):
             d = core.diff_exact(r["dec"], r["impl"])
             if d is not None:
                 corr.append((r, d))
+        for r in (x, y):
+            op = order_problem(r["impl"])
+            if op is not None:
+                st["order-problems"] += 1
+                res.violation("failing-input", "rows are not processed in settlement-date order with ties broken by input position: " + op,
+                              {"input": r["hc"]})
+                break
         d = same_results(x["impl"], y["impl"])
         if d is not None:
             res.violation("failing-input", "re-laid-out input (%s) gives different results: %s" % (desc, d),
